@@ -270,7 +270,7 @@ func (v *Verifier) newCtx(fn *ssa.Function, con *Contract) *FuncCtx {
 	c := &FuncCtx{v: v, sc: newScript(math), top: fn, topCon: con, keys: map[string]keyInfo{}, initMemo: map[string]Term{},
 		structs: map[string]*structInfo{}, structNames: map[string]*structInfo{}, tags: map[string]int{}, tagTypes: map[int]types.Type{},
 		assumptions: map[string]bool{}, trustedUsed: map[string]bool{}, unmodelled: map[string]bool{}, oblCount: map[string]int{},
-		pureDecl: map[string]bool{}, uncontracted: map[string]bool{}, calleeContracts: map[string]bool{}, pureSig: map[string]string{}}
+		pureDecl: map[string]bool{}, constGlobals: map[string]Term{}, uncontracted: map[string]bool{}, calleeContracts: map[string]bool{}, pureSig: map[string]string{}}
 	c.guard = tTrue
 	c.registerKey("epoch", SInt, false)
 	if con != nil {
@@ -321,6 +321,15 @@ func (v *Verifier) verifyFunc(fn *ssa.Function, con *Contract) (res *FuncResult)
 		fr.env[fv] = &Val{T: []Term{t}}
 		c.sc.assume(not(eq(t, Term{"nil_ref", SRef})))
 		c.preexisting(t)
+		c.privateRefs = append(c.privateRefs, privRef{t, nil, fr})
+		c.assumeNote("captured variables of a closure are changed only by the enclosing function and its closures (not by other callees)")
+	}
+	for i := range fn.FreeVars {
+		for j := range fn.FreeVars {
+			if i < j {
+				c.sc.assume(not(eq(fr.env[fn.FreeVars[i]].T[0], fr.env[fn.FreeVars[j]].T[0])))
+			}
+		}
 	}
 	fr.setReach(tTrue)
 	// requires: assumed
@@ -499,6 +508,7 @@ func (fr *Frame) checkEnsures() {
 				c.sc.oblige(&Obligation{Name: name + "#1", Kind: "cover", Func: c.funcName, Props: c.props, Goal: c.sc.define("cov", and(reach, a)), Cover: true, Detail: "antecedent reachable: " + oneLine(cl.Text)})
 			}
 		}
+		c.pendingParts, c.pendingGuard = ec.clauseParts(cl.Expr), reach
 		fr.oblige("ensures", clauseLabel(cl, i), implies(reach, t), token.NoPos, oneLine(cl.Text))
 	}
 	// frame: a pure / modifies-nothing function leaves every pre-existing heap object unchanged
